@@ -305,7 +305,7 @@ func ruleErrProp(p *Prog, r *Result) {
 				r.hit(key, pos, "O1: error result of storage-reaching call is discarded")
 				return
 			}
-			if msg := checkErrFlow(p, fn, c, ev); msg != "" {
+			if msg := checkErrFlow(p, fn, c, ev, p.callReachesStorage); msg != "" {
 				r.hit(key, pos, msg)
 				return
 			}
@@ -344,7 +344,10 @@ func callDesc(p *Prog, ci ssa.CallInstruction) string {
 }
 
 // checkErrFlow verifies O2..O4 for error value ev of call c in fn. Returns "" if fine.
-func checkErrFlow(p *Prog, fn *ssa.Function, c *ssa.Call, ev ssa.Value) string {
+func checkErrFlow(p *Prog, fn *ssa.Function, c *ssa.Call, ev ssa.Value, sensitive func(ssa.CallInstruction) bool) string {
+	if sensitive == nil {
+		sensitive = func(ssa.CallInstruction) bool { return false }
+	}
 	D := forwardTaint(ev)
 	errIdx := errResultIndex(fn.Signature)
 	retCarries := func(ret *ssa.Return) bool {
@@ -408,7 +411,7 @@ func checkErrFlow(p *Prog, fn *ssa.Function, c *ssa.Call, ev ssa.Value) string {
 		}
 		for i := from; i < len(b.Instrs); i++ {
 			in := b.Instrs[i]
-			if oc, ok := in.(ssa.CallInstruction); ok && oc != ssa.CallInstruction(c) && p.callReachesStorage(oc) {
+			if oc, ok := in.(ssa.CallInstruction); ok && oc != ssa.CallInstruction(c) && sensitive(oc) {
 				// another storage-reaching call before the error was examined
 				// (allowed only if the error is forwarded later - but then a failed call was followed by more storage work)
 				problem = fmt.Sprintf("O4: storage-reaching call %s at %s is executed before the error is examined", callDesc(p, oc), p.InstrPos(in))
@@ -452,7 +455,7 @@ func checkErrFlow(p *Prog, fn *ssa.Function, c *ssa.Call, ev ssa.Value) string {
 			}
 			vis[b] = true
 			for _, in := range b.Instrs {
-				if oc, ok := in.(ssa.CallInstruction); ok && p.callReachesStorage(oc) {
+				if oc, ok := in.(ssa.CallInstruction); ok && sensitive(oc) {
 					return fmt.Sprintf("O4: storage-reaching call %s at %s on the failure path", callDesc(p, oc), p.InstrPos(in))
 				}
 				if ret, ok := in.(*ssa.Return); ok {
